@@ -82,6 +82,46 @@ static void vals2(char const *fn, double a1, double a2, double a3, double a4, a_
 static void real1(char const *fn, double x, double y) { fprintf(f, "{\"k\":\"r\",\"fn\":\"%s\",\"x\":", fn); put_pair(x, 0); fputs(",\"y\":", f); put_pair(y, 0); fputs("}\n", f); ++n_lines; }
 static void real2(char const *fn, double a, double b, double y) { fprintf(f, "{\"k\":\"r2\",\"fn\":\"%s\",\"x\":", fn); put_pair(a, b); fputs(",\"y\":", f); put_pair(y, 0); fputs("}\n", f); ++n_lines; }
 
+/* scale relations: multiplying the argument by 2^s is exact, and the true value of a homogeneous function moves by an
+   exact power of two as well - so f(z*2^s), scaled back, must agree with f(z) to the usual accuracy although the
+   squares of the components are far outside the floating-point range */
+static void hom(char const *fn, a_complex z, a_complex w0, a_complex ws)
+{
+    fprintf(f, "{\"k\":\"h\",\"fn\":\"%s\",\"z\":", fn);
+    put_z(z);
+    fputs(",\"w\":", f); put_z(w0);
+    fputs(",\"ws\":", f); put_z(ws);
+    fputs("}\n", f);
+    ++n_lines;
+}
+static a_complex cscale(a_complex z, int e) { a_complex r; r.real = (a_real)ldexp((double)z.real, e); r.imag = (a_real)ldexp((double)z.imag, e); return r; }
+static void scale_relations(void)
+{
+    static double const cs[] = {0.75, -1.1875, 3, -0.3125};
+    int const S = sizeof(a_real) == 4 ? 70 : 600; /* even */
+    for (int i = 0; i < 4; ++i) for (int j = 0; j < 4; ++j) for (int sg = -1; sg <= 1; sg += 2)
+    {
+        int const s = sg * S;
+        a_complex z, y, w0, ws, t;
+        z.real = (a_real)cs[i]; z.imag = (a_real)cs[j];
+        y.real = (a_real)cs[(i + 1) % 4]; y.imag = (a_real)cs[(j + 2) % 4];
+        w0 = z; a_complex_inv_(&w0); ws = cscale(z, s); a_complex_inv_(&ws); hom("inv", z, w0, cscale(ws, s));
+        w0 = z; a_complex_sqrt_(&w0); ws = cscale(z, s); a_complex_sqrt_(&ws); hom("sqrt", z, w0, cscale(ws, -s / 2));
+        w0.real = a_complex_abs(z); w0.imag = 0; ws.real = a_complex_abs(cscale(z, s)); ws.imag = 0; hom("abs", z, w0, cscale(ws, -s));
+        w0.real = a_complex_arg(z); w0.imag = 0; ws.real = a_complex_arg(cscale(z, s)); ws.imag = 0; hom("arg", z, w0, ws);
+        w0.real = a_complex_logabs(z); w0.imag = 1; ws.real = (a_real)((double)a_complex_logabs(cscale(z, s)) - s * 0.69314718055994530942); ws.imag = 1; hom("logabs", z, w0, ws);
+        w0 = z; a_complex_div_(&w0, y); ws = cscale(z, s); a_complex_div_(&ws, cscale(y, s)); hom("div", z, w0, ws);
+        ws = cscale(z, s); a_complex_div_(&ws, y); hom("div_num", z, w0, cscale(ws, -s));
+        ws = z; a_complex_div_(&ws, cscale(y, s)); hom("div_den", z, w0, cscale(ws, s));
+        w0 = z; a_complex_mul_(&w0, y); ws = cscale(z, s); a_complex_mul_(&ws, cscale(y, -s)); hom("mul", z, w0, ws);
+        w0 = z; a_complex_log_(&w0); ws = cscale(z, s); a_complex_log_(&ws); ws.real = (a_real)((double)ws.real - s * 0.69314718055994530942); hom("log", z, w0, ws);
+        t.real = 0; t.imag = 0;
+        a_complex_polar(&w0, (a_real)a_real_abs((a_real)cs[i]), (a_real)cs[j]); a_complex_polar(&t, (a_real)ldexp(fabs(cs[i]), s), (a_real)cs[j]); hom("polar", z, w0, cscale(t, -s));
+        w0 = z; a_complex_div_real_(&w0, (a_real)cs[(j + 1) % 4]); ws = cscale(z, s); a_complex_div_real_(&ws, (a_real)ldexp(cs[(j + 1) % 4], s)); hom("div_real", z, w0, ws);
+        w0 = z; a_complex_div_imag_(&w0, (a_real)cs[(j + 1) % 4]); ws = cscale(z, s); a_complex_div_imag_(&ws, (a_real)ldexp(cs[(j + 1) % 4], s)); hom("div_imag", z, w0, ws);
+    }
+}
+
 int main(int argc, char **argv)
 {
     if (argc < 2) { return 2; }
@@ -172,6 +212,7 @@ int main(int argc, char **argv)
             w = x; a_complex_pow_real_(&w, 2); vals2("pow_real2", x.real, x.imag, 0, 0, w);
         }
     }
+    scale_relations();
     /* real helpers (C11) */
     static double const rx[] = {1e-300, 1e-18, 1e-9, 1e-5, 0.01, 0.3, 0.5, 0.75, 0.99, 1.0, 1.5, 2.0, 2.5, 10.0, 1e5, 6.7e7, 1e8, 1e10, 1e20, 1e150, 1e300};
     for (size_t i = 0; i < sizeof(rx) / sizeof(rx[0]); ++i)
